@@ -161,6 +161,22 @@ q("select_name", "gfa")(lambda g, e: g.select({"name": _a_name(g, e)}))
 q("select_line", "gfa")(lambda g, e: g.select(e.rng.choice(g.lines)))
 
 
+def _select_same_dict(g, e):
+    """the caller keeps its query dictionary and uses it again: it is the caller's object."""
+    if "criteria" not in e.memo:
+        crit = {"record_type": e.rng.choice(["S", "L", "E", "P", "O", "U", "G", "F", "C"])}
+        if e.rng.random() < 0.5:
+            crit["name"] = _a_name(g, e)
+        e.memo["criteria"] = crit
+    crit = e.memo["criteria"]
+    before = sorted(crit.items())
+    r = g.select(crit)
+    return (before, r, sorted(crit.items()))
+
+
+q("select_same_dict", "gfa")(_select_same_dict)
+
+
 def _select_by_field(g, e):
     """search by the real name of a field of one of the lines (sid, eid, from_segment, ...)."""
     x = e.rng.choice(g.lines)
